@@ -69,8 +69,8 @@ PROPS = {
     "C14": dict(
         # Props.GoEnvelope: the model's Envelope.check = the translated body of checkEnvelope, for every byte string
         # Props.GoReplication: the replication handlers never panic on a payload (request side) / panic only on a failing append (response side)
-        lean_modules=["Liftbridge.Props.C14", "Liftbridge.Props.GoEnvelope", "Liftbridge.Props.GoReplication"],
-        gen_sources=["server/protocol/envelope.go", "server/protocol/envelope.go:gomini:checkEnvelope", "server/partition.go:gomini:partition.handleReplicationRequest", "server/partition.go:gomini:partition.handleReplicationResponse"],
+        lean_modules=["Liftbridge.Props.C14", "Liftbridge.Props.GoEnvelope", "Liftbridge.Props.GoReplication", "Liftbridge.Props.GoNatsMsg"],
+        gen_sources=["server/protocol/envelope.go", "server/protocol/envelope.go:gomini:checkEnvelope", "server/partition.go:gomini:partition.handleReplicationRequest", "server/partition.go:gomini:partition.handleReplicationResponse", "server/partition.go:gomini:natsToProtoMessage"],
         runs=[dict(go_pkg="./server/protocol", test="TestVerifC14"), dict(go_pkg="./server", test="TestVerifC14Server"), dict(go_pkg="./server", test="TestVerifC14ServerSmallLimit"), dict(go_pkg="./server", test="TestVerifC14BatchWait")],
         level="proof",
         assumptions=[
